@@ -70,6 +70,7 @@ type lexer struct {
 	mu     sync.Mutex
 	err    error
 	cancel chan struct{}
+	failed bool // the parser has reported an error
 
 	b strings.Builder
 }
@@ -386,14 +387,11 @@ func (l *lexer) unread() {
 	l.r.UnreadRune()
 }
 
-// set assigns value to the variable named by the name, unless an error
-// has already been reported.
+// set assigns value to the variable named by the name, unless the parser
+// has already reported an error.
 func (l *lexer) set(name, value string) {
 	vpoint(l, vSet)
-	l.mu.Lock()
-	defer l.mu.Unlock()
-
-	if l.err == nil {
+	if !l.failed {
 		l.env.Set(name, value)
 	}
 }
@@ -417,6 +415,9 @@ func (l *lexer) wait() {
 // error of the parser replaces one of the lexer, but not vice versa.
 func (l *lexer) report(s string, parser bool) {
 	vpoint(l, vErr)
+	if parser {
+		l.failed = true
+	}
 	l.mu.Lock()
 	defer l.mu.Unlock()
 
